@@ -244,6 +244,95 @@ theorem every_operation_registered_and_documented :
     ∀ r ∈ table, r.registered = true ∧ r.hasDoc = true := by
   decide +kernel
 
+/-! ### exactly when a further attempt is made -/
+
+/-- a further attempt is made **iff** the outcome is one the configuration allows to be retried and the
+    attempt was not the last one of the budget -/
+theorem retried_iff (p : Params) (outs : List Outcome) (i : Nat) (o : Outcome)
+    (ho : outs[i]? = some o) (hi : i < (retry p outs).calls) :
+    FollowedByAnother (retry p outs) i ↔ (Retryable (cfg p) o.kind ∧ i + 1 ≠ (cfg p).maxAttempts) := by
+  constructor
+  · intro hf
+    refine ⟨retry_only_when_configured p outs i o ho hf, ?_⟩
+    intro hlast
+    have hb := (attempts_bounded p outs).1
+    rcases hf with hf | ⟨hf, hp⟩
+    · omega
+    · -- pending needs room for another attempt
+      have hr := loop_res (cfg p) 0 outs
+      have hp' : (loop (cfg p) 0 outs).res = .pending := hp
+      rw [hp'] at hr
+      have hc : nCalls (loop (cfg p) 0 outs).trace = (retry p outs).calls := rfl
+      simp at hr
+      omega
+  · intro ⟨hr, hnl⟩
+    have hat := (loop_at (cfg p) 0 outs i o ho hi).2.2
+    apply hat
+    have hl : (0 + i + 1 == (cfg p).maxAttempts) = false := by simp; omega
+    unfold stepAt
+    rw [hl, classify_retry_of (cfg p) o.kind (by
+      rcases hr with ⟨ht, hk⟩ | ⟨he, hk⟩
+      · exact Or.inr ⟨hk, ht⟩
+      · exact Or.inl ⟨hk, he⟩)]
+    rfl
+
+/-! ### at the level of Elasticsearch's answers (runner bodies transparent for client errors) -/
+
+/-- the class of the first client error of an attempt is the class of the attempt -/
+theorem first_error_is_the_outcome (answers : List Answer) (value : Outcome) (k : Kind) (t : Nat)
+    (h : answers.find? Answer.isError = some (.error k t)) : bodyOutcome answers value = ⟨k, t⟩ := by
+  simp [bodyOutcome, h]
+
+/-- an attempt in which Elasticsearch answered a request with a time-out, a connection error or HTTP 408 is
+    followed by another attempt iff `retry-on-timeout` is on and the budget is not used up; otherwise that very
+    error is raised -/
+theorem timeout_answer_retried_iff (p : Params) (atts : List ClusterAttempt) (i : Nat) (a : ClusterAttempt) (k : Kind) (t : Nat)
+    (ha : atts[i]? = some a) (he : a.answers.find? Answer.isError = some (.error k t))
+    (hk : k = .sockTimeout ∨ k = .connError ∨ k = .connTimeout ∨ k = .api408)
+    (hi : i < (retryCluster p atts).calls) :
+    (FollowedByAnother (retryCluster p atts) i ↔ ((cfg p).retryOnTimeout = true ∧ i + 1 ≠ (cfg p).maxAttempts)) ∧
+    (¬ FollowedByAnother (retryCluster p atts) i →
+      (retryCluster p atts).calls = i + 1 ∧ (retryCluster p atts).res = .raised ⟨k, t⟩) := by
+  have ho : (atts.map (fun a => bodyOutcome a.answers a.value))[i]? = some ⟨k, t⟩ := by
+    simp [ha, first_error_is_the_outcome _ _ k t he]
+  have hiff := retried_iff p _ i ⟨k, t⟩ ho hi
+  constructor
+  · unfold retryCluster
+    rw [hiff]
+    constructor
+    · rintro ⟨hr, hn⟩
+      rcases hr with ⟨ht, _⟩ | ⟨_, hd⟩
+      · exact ⟨ht, hn⟩
+      · rcases hk with hk | hk | hk | hk <;> rw [hk] at hd <;> cases hd
+    · rintro ⟨ht, hn⟩
+      exact ⟨Or.inl ⟨ht, hk⟩, hn⟩
+  · intro hnf
+    unfold retryCluster at hnf hi ⊢
+    -- not followed: the step at position i is terminal, and for an exception class that is `raise`
+    have hat := loop_at (cfg p) 0 _ i ⟨k, t⟩ ho hi
+    cases hs : stepAt (cfg p) 0 i ⟨k, t⟩ with
+    | ret =>
+      exfalso
+      have := classify_ret_isValue _ _ _ hs
+      rcases hk with hk | hk | hk | hk <;> simp [hk, Kind.isValue] at this
+    | raise => exact hat.2.1 hs
+    | retrySleep => exact absurd (hat.2.2 (by rw [hs]; rfl)) hnf
+
+/-- an attempt in which Elasticsearch answered a request with any other API error (400, 403, 404, 409, 429, 5xx …),
+    another transport error or anything unexpected ends the operation at once with that very error -/
+theorem error_answer_propagates (p : Params) (atts : List ClusterAttempt) (i : Nat) (a : ClusterAttempt) (k : Kind) (t : Nat)
+    (ha : atts[i]? = some a) (he : a.answers.find? Answer.isError = some (.error k t))
+    (hk : k = .apiOther ∨ k = .transportOther ∨ k = .otherExc)
+    (hi : i < (retryCluster p atts).calls) :
+    (retryCluster p atts).calls = i + 1 ∧ (retryCluster p atts).res = .raised ⟨k, t⟩ := by
+  have ho : (atts.map (fun a => bodyOutcome a.answers a.value))[i]? = some ⟨k, t⟩ := by
+    simp [ha, first_error_is_the_outcome _ _ k t he]
+  exact non_retryable_immediate p _ i ⟨k, t⟩ ho hi (by
+    rcases hk with hk | hk | hk
+    · exact Or.inl hk
+    · exact Or.inr (Or.inl hk)
+    · exact Or.inr (Or.inr (Or.inl hk)))
+
 /-! ### consecutive invocations of a task: every invocation retries as the *task* is configured
 
 `runTask wrapped u shared p invs` runs the invocations `invs` of one task one after the other against the
@@ -309,6 +398,14 @@ example : (⟨"get-async-search", true, true, true, true, true⟩ : Row) ∈ tab
 open Gen.RetryWrapped in
 example : (⟨"create-snapshot", true, false, false, true, false⟩ : Row) ∈ table := by decide +kernel
 
+
+-- a 408 answer to the second request of the first attempt, then a healthy attempt: retried once, waits once
+example : retryCluster ⟨false, none, some 2, none, some 2, none⟩
+    [⟨[.doc, .error .api408 7, .doc], ⟨.dictOk, 0⟩⟩, ⟨[.doc, .doc], ⟨.dictOk, 1⟩⟩]
+    = ⟨.returned ⟨.dictOk, 1⟩, [.call, .sleep 2, .call]⟩ := by decide +kernel
+-- a 404 answer propagates at once
+example : retryCluster ⟨false, none, some 2, some true, none, none⟩ [⟨[.error .apiOther 4], ⟨.dictOk, 0⟩⟩, ⟨[.doc], ⟨.dictOk, 1⟩⟩]
+    = ⟨.raised ⟨.apiOther, 4⟩, [.call]⟩ := by decide
 
 /-! ### historical witness (labelled as such): the behaviour before the fix 9eaa174
 
